@@ -433,7 +433,7 @@ def absolute_clauses(table, docs, files, socks):
     return bad
 
 
-TIERS = {'quick': {'runs': 8000, 'wall': 900, 'det': 48, 'faultruns': 0},
+TIERS = {'quick': {'runs': 10000, 'wall': 1200, 'det': 48, 'faultruns': 0},
          'thorough': {'runs': 200000, 'wall': 10800, 'det': 400, 'faultruns': 20000}}
 
 
